@@ -179,10 +179,14 @@ def projEqVarT (pre : Ten R m (n + 1) (n + 1)) (rest : Mat R n (n + 1)) :
 def projEqVarF (hss : Ten R m n n) : Ten R m n n := projEq hss
 
 /-- content of the CALLER's array after `calc_proj_eq_constraint_with_var(c_sys, var, False)`:
-`convert_var_to_hss(…, False)` returns `var.reshape(…)` *views* (`vector = var`, mprocess.py:1081) and the loop
-`hs[0] -= vec / len(hss)` writes through them, so the argument ends up holding the projected first rows
-(defect DESIGN §5-D5).  With the flag set `convert_var_to_hss` works on `copy.copy(var)` and the argument is untouched. -/
-def argAfterEqVarF (hss : Ten R m n n) : Ten R m n n := projEq hss
+`convert_var_to_hss(…, False)` works on `copy.copy(var)` (since the repair of DESIGN §5-D5; before it returned
+reshaped *views* of `var` and `hs[0] -= vec / len(hss)` wrote the projected first rows into the argument),
+so the argument is left as it was. -/
+def argAfterEqVarF (hss : Ten R m n n) : Ten R m n n := hss
+
+/-- the same for the flag set: `convert_var_to_hss(…, True)` starts from `copy.copy(var)` and `np.insert` allocates -/
+def argAfterEqVarT (pre : Ten R m (n + 1) (n + 1)) (rest : Mat R n (n + 1)) :
+    Ten R m (n + 1) (n + 1) × Mat R n (n + 1) := (pre, rest)
 
 end MProcess
 
@@ -420,10 +424,20 @@ def handleEq (args : List String) : Option String :=
       let m ← parseNat? m; let n ← parseNat? n
       let T ← tenOf? m n n (← rats? hss)
       some s!"ok {showT (MProcess.projEq T)}"
-  | ["m_eq_var_after", m, n, var] => do
-      let m ← parseNat? m; let n ← parseNat? n
-      let T ← tenOf? m n n (← rats? var)
-      some s!"ok {showT (MProcess.argAfterEqVarF T)}"
+  | ["m_eq_var_after", flag, m, n, var] => do
+      let flag ← parseBool? flag; let m ← parseNat? m; let n ← parseNat? n; let l ← rats? var
+      if flag then
+        match m, n with
+        | m' + 1, n' + 1 => do
+          let k := m' * ((n' + 1) * (n' + 1))
+          let pre ← tenOf? m' (n' + 1) (n' + 1) (l.take k)
+          let rest ← matOf? n' (n' + 1) (l.drop k)
+          let r := MProcess.argAfterEqVarT pre rest
+          some s!"ok {showList showRat (tenList r.1 ++ matList r.2)}"
+        | _, _ => none
+      else do
+        let T ← tenOf? m n n l
+        some s!"ok {showT (MProcess.argAfterEqVarF T)}"
   | ["m_eq_var", flag, m, n, var] => do
       let flag ← parseBool? flag; let m ← parseNat? m; let n ← parseNat? n; let l ← rats? var
       if flag then
